@@ -6,12 +6,18 @@ use std::{io, io::prelude::*};
 #[derive(Debug)]
 pub struct Base64Reader<R: BufRead> {
     inner: R,
+    /// An error of the inner reader that occurred after some bytes had already been produced.
+    /// It is returned by the next call to `read`.
+    deferred_err: Option<io::Error>,
 }
 
 impl<R: BufRead> Base64Reader<R> {
     /// Creates a new `Base64Reader`.
     pub fn new(input: R) -> Self {
-        Base64Reader { inner: input }
+        Base64Reader {
+            inner: input,
+            deferred_err: None,
+        }
     }
 
     /// Consume `self` and return the inner reader.
@@ -22,6 +28,10 @@ impl<R: BufRead> Base64Reader<R> {
 
 impl<R: BufRead> Read for Base64Reader<R> {
     fn read(&mut self, into: &mut [u8]) -> io::Result<usize> {
+        if let Some(err) = self.deferred_err.take() {
+            return Err(err);
+        }
+
         let mut buf = self.inner.fill_buf()?;
         if buf.is_empty() {
             return Ok(0);
@@ -53,7 +63,18 @@ impl<R: BufRead> Read for Base64Reader<R> {
 
             if buf_i == buf.len() {
                 self.inner.consume(buf_i);
-                buf = self.inner.fill_buf()?;
+                buf = match self.inner.fill_buf() {
+                    Ok(buf) => buf,
+                    Err(err) => {
+                        if n == 0 {
+                            return Err(err);
+                        }
+                        // Bytes have already been produced: hand them out now,
+                        // and report the error on the next call.
+                        self.deferred_err = Some(err);
+                        return Ok(n);
+                    }
+                };
                 buf_i = 0;
                 if buf.is_empty() {
                     break;
